@@ -240,6 +240,7 @@ func init() {
 		monC09ReadHistory(s)
 		monC09NodeConfig(s)
 		monC09UpgradeReplicas(s)
+		monC09RestartEveryBlock(s)
 		for h := 0; h < n; h++ {
 			accts := rtAccts()
 			a, err := NewChain(dbm.NewMemDB(), tmpHome(), accts, 100000, nil)
@@ -528,6 +529,7 @@ func init() {
 		s := NewStream(dir, "conc")
 		defer s.Close(dir, "conc")
 		monC20ConcurrentValidation(s)
+		monC20LargeClassListing(s)
 		accts := rtAccts()
 		a, err := NewChain(dbm.NewMemDB(), tmpHome(), accts, 100000, nil)
 		if err != nil {
